@@ -294,6 +294,10 @@ Proof.
   pose proof (mode_m_separate isatty program [] [] [] (C_nil gdefs []) (Forall_nil _) clean_nil m args) as R4.
   cbv zeta in R1, R4. cbn [app apply_flags] in R1, R2, R3, R4.
   change (45 :: [99]) with minus_c in R1. change (45 :: [109]) with minus_m in R4.
-  Show. rewrite R1, R2, R3, R4. cbn. rewrite E1, (E2 _ Hf), (E3 Hs), (E4 _ _ Hm). repeat split; reflexivity.
+  unfold text in *. split; [|split; [|split]].
+  - rewrite R1. cbn. rewrite E1. reflexivity.
+  - rewrite R2. cbn. rewrite (E2 _ Hf). reflexivity.
+  - rewrite R3. cbn. rewrite (E3 Hs). reflexivity.
+  - rewrite R4. cbn. rewrite (E4 _ _ Hm). reflexivity.
 Qed.
 End Agree.
